@@ -25,7 +25,7 @@ UStep(st, e, t) ==
            ELSE Good([st EXCEPT !.pframe = e.after])
       [] e.e = "tx" ->
            LET new == Deliver(st.cons, t.pcob, st.pframe, e.ts) IN
-           IF e.frames # <<[id |-> t.pcob, d |-> st.pframe, rtr |-> FALSE]>>
+           IF e.frames # <<[id |-> t.pcob, d |-> st.pframe, rtr |-> FALSE, ext |-> t.pcob > 2047]>>
              THEN Bad(st, "transmit did not send exactly the map's COB-ID and current data")
            ELSE IF e.cons # Proj(new) THEN Bad(st, "consumer maps after reception: data / timestamp / period / callbacks differ (only the maps subscribed to the COB-ID may change)")
            ELSE Good([st EXCEPT !.cons = new])
@@ -54,7 +54,7 @@ UStep(st, e, t) ==
            ELSE Good([st EXCEPT !.cons = new])
       [] e.e = "rtr" ->
            LET c == st.cons[e.k] IN
-           IF e.frames # (IF c.enabled /\ c.rtr THEN <<[id |-> c.cob, d |-> <<>>, rtr |-> TRUE]>> ELSE <<>>)
+           IF e.frames # (IF c.enabled /\ c.rtr THEN <<[id |-> c.cob, d |-> <<>>, rtr |-> TRUE, ext |-> c.cob > 2047]>> ELSE <<>>)
              THEN Bad(st, "remote request not sent exactly for an enabled map that allows RTR")
            ELSE IF ~e.pdata_kept \/ e.cons # Proj(st.cons)
              THEN Bad(st, "a remote frame was taken for data (producer / consumer maps changed)")
